@@ -46,6 +46,16 @@ def judge_solves(r, tree=False):
     return bad
 
 
+def _limits(entry, nb):
+    """per-bond limits of one procedure entry (bond k lies to the left of site k; nb = number of sites + 1)"""
+    return [int(x) for x in entry["max_dims"]] if isinstance(entry, dict) else [int(entry)] * nb
+
+
+def _big(entry, hilbert):
+    """no selection at all can drop weight: every limit is at least the dimension of the whole space"""
+    return (not isinstance(entry, dict)) and entry >= hilbert
+
+
 def _roots(e):
     return list(e) if isinstance(e, (list, tuple)) else [e]
 
@@ -106,7 +116,7 @@ def judge_chain(case, r):
     # at the centre that had the lowest energy in the previous sweep (single_sweep: `if cidx == last_opt_e_idx`),
     # so its energy is the energy reported for that solve -- converged or not
     micro = r.get("micro", [])
-    if len(micro) >= 2 and all(m >= r.get("hilbert_dim", 10 ** 9) for m, _ in case["procedure"][: len(micro)]):
+    if len(micro) >= 2 and all(_big(m, r.get("hilbert_dim", 10 ** 9)) for m, _ in case["procedure"][: len(micro)]):
         opt = min([[list(_roots(es)), list(cidx)] for es, cidx in micro[-2]])
         hit = [es for es, cidx in micro[-1] if list(cidx) == opt[1]]
         r["_state_vs_solve"] = bool(hit)
@@ -120,16 +130,30 @@ def judge_chain(case, r):
                                                    "state": f["dense_energy"], "solve": ej, "cidx": opt[1]}))
     # exact ranks: no bond of the chain needs more than min(dim left block, dim right block) states
     pd = r.get("pdims") or []
-    bound = 1
+    ranks = [1]
     for cut in range(1, len(pd)):
         lft = rgt = 1
         for x in pd[:cut]:
             lft *= x
         for x in pd[cut:]:
             rgt *= x
-        bound = max(bound, min(lft, rgt))
+        ranks.append(min(lft, rgt))
+    ranks.append(1)
     nexec = len(micro)
-    ms = [m for m, _ in case["procedure"][:nexec]]
+    lims = [_limits(m, len(pd) + 1) for m, _ in case["procedure"][:nexec]]
+    # how far every sweep is above the exact ranks (>= 0: no bond is limited below its exact rank)
+    ms = [min(l[k] - ranks[k] for k in range(1, len(pd))) if len(pd) > 1 else 0 for l in lims]
+    bound = 0
+    # bond-limit conformance: the returned state is a snapshot of the last sweep; no bond may exceed the limit the last two sweeps gave it
+    if pd and nexec >= 2:
+        for j, f in enumerate(fins):
+            bd = f.get("bond_dims")
+            if f.get("error") or not bd or len(bd) != len(pd) + 1 or case.get("ofs"):
+                continue
+            over = [(k, bd[k], max(lims[-1][k], lims[-2][k])) for k in range(1, len(pd)) if bd[k] > max(lims[-1][k], lims[-2][k])]
+            if over:
+                bad.append(("bond-limit", {"root": j, "what": "a bond of the returned state exceeds its own limit", "bond, dimension, limit": over,
+                                           "bond_dims": bd, "limits_last_two_sweeps": lims[-2:]}))
     # the optimiser declared convergence itself (stopped before the procedure ended), with a tight tolerance, and the last two
     # sweeps ran at the exact ranks (nothing truncated): the returned state must carry the last reported energy
     if pd and nexec >= 2 and nexec < len(case["procedure"]) and case.get("e_rtol", 1e-6) <= 1e-10 and min(ms[-2:]) >= bound and fins:
@@ -146,6 +170,12 @@ def judge_chain(case, r):
     if case.get("expect_final_exact") and pd and ms and ms[-1] >= bound and fins and not fins[0].get("error"):
         f = fins[0]
         last = _roots(r["macro"][-1])[0]
+        if case.get("expect_bond_dims") and f.get("bond_dims") != ranks:
+            bad.append(("returned-state", {"root": 0, "what": "every bond is allowed its exact rank, but the returned state does not have the exact ranks",
+                                           "bond_dims": f.get("bond_dims"), "exact_ranks": ranks, "limits": lims[-1]}))
+        if case.get("omega") is not None and abs(f["dense_H"] - r.get("exact_H_near_omega", f["dense_H"])) > 1e-6 * _scale(f["dense_H"]):
+            bad.append(("returned-state", {"root": 0, "what": "omega targeting at the exact ranks: the energy of the returned state is not the eigenvalue next to omega",
+                                           "state_energy": f["dense_H"], "eigenvalue": r.get("exact_H_near_omega"), "bond_dims": f.get("bond_dims")}))
         if abs(f["dense_energy"] - exact[0]) > TOL_EXACT * _scale(exact[0]) or abs(f["dense_energy"] - last) > TOL_EXACT * _scale(last):
             bad.append(("returned-state", {"root": 0, "what": "bond limit restored to the exact ranks: the returned state's <H> must equal the exact eigenvalue and the last reported energy",
                                            "state": f["dense_energy"], "exact": exact[0], "reported_per_sweep": [(_roots(x)[0]) for x in r["macro"]],
@@ -159,7 +189,7 @@ def judge_chain(case, r):
                 sweep_of_full = isw
                 break
             acc += cnt
-        no_trunc = all(m >= r.get("hilbert_dim", 10 ** 9) for m, _ in case["procedure"][: len(per_sweep)])
+        no_trunc = all(_big(m, r.get("hilbert_dim", 10 ** 9)) for m, _ in case["procedure"][: len(per_sweep)])
         r["_converged_full"] = bool(no_trunc and sweep_of_full < len(per_sweep) - 1)
         if r["_converged_full"]:
             last = _roots(r["macro"][-1])
